@@ -1,2 +1,101 @@
-(* Props/C20.v -- placeholder while the proofs are written *)
-From PV Require Import Base.Prelude Sync.RWLock.
+(* Props/C20.v -- Lock primitives give the exclusion they document.
+   Only statements, each closed by [exact] and followed by Print Assumptions.
+
+   Model: Sync/RWLock.v (CPython 3.12 asyncio.Lock + pymap's
+   _AsyncioReadWriteLock, algorithm [Fixed] = the current tree, [Old] = the tree
+   before the fix commit), Sync/FileLock.v (pymap.concurrent.FileLock).
+   [exec al (init progs) sched = Some (st, ev)]: the schedule [sched] -- any
+   sequence of [Run t] (task t runs from one suspension point to the next) and
+   [Cancel t] (task.cancel()) -- is executable from the initial state of ANY
+   number of tasks with ANY straight-line programs of read/write acquisitions,
+   and leads to [st] with the enter/exit log [ev]. *)
+From PV Require Import Base.Prelude Sync.RWLock Sync.RWLockProofs Sync.FileLock Sync.FileLockProofs.
+
+(* never two writers inside, never a writer together with a reader: every
+   interleaving, every cancellation point, any number of tasks *)
+Theorem C20_excl : forall progs sched st ev,
+  exec Fixed (init progs) sched = Some (st, ev) ->
+  writers_in st <= 1 /\ (writers_in st = 1 -> readers_in st = 0).
+Proof. exact excl_thm. Qed.
+Print Assumptions C20_excl.
+
+(* Lock.release() is never called on an unlocked mutex and the reader count
+   never goes below zero *)
+Theorem C20_no_runtime_error : forall progs sched st ev,
+  exec Fixed (init progs) sched = Some (st, ev) -> err st = false.
+Proof. exact no_error_thm. Qed.
+Print Assumptions C20_no_runtime_error.
+
+(* no deadlock: while some task has not finished, some task has a ready
+   handle and its step is defined (holders are at a yield, so "every holder
+   eventually releases" is: the scheduler eventually runs them) *)
+Theorem C20_no_deadlock : forall progs sched st ev,
+  exec Fixed (init progs) sched = Some (st, ev) ->
+  (exists t, unfinished st t) ->
+  exists t st' ev', enabled st t = true /\ step Fixed st (Run t) = Some (st', ev').
+Proof. exact no_deadlock_thm. Qed.
+Print Assumptions C20_no_deadlock.
+
+(* and every step of a task consumes a bounded budget, so runs are finite:
+   together with C20_no_deadlock every maximal run ends with all tasks done *)
+Theorem C20_terminates : forall progs sched st ev,
+  exec Fixed (init progs) sched = Some (st, ev) ->
+  run_steps sched + measure st <= measure (init progs).
+Proof. exact terminates_thm. Qed.
+Print Assumptions C20_terminates.
+
+(* cancelling any unfinished task in any reachable state: the task is runnable,
+   its next step ends it, it is left in no queue; the resulting state is again
+   a reachable one, so C20_excl / C20_no_deadlock keep holding afterwards *)
+Theorem C20_cancel_ok : forall progs sched st ev t,
+  exec Fixed (init progs) sched = Some (st, ev) -> unfinished st t ->
+  exists st2 ev2,
+    exec Fixed (init progs) (sched ++ [Cancel t; Run t]) = Some (st2, ev2) /\
+    (exists tk, nth_error (tasks st2) t = Some tk /\ tpc tk = Dead) /\
+    ~ In t (tids (rl st2)) /\ ~ In t (tids (wl st2)).
+Proof. exact cancel_ok_thm. Qed.
+Print Assumptions C20_cancel_ok.
+
+(* the algorithm before the fix: a second reader enters next to a writer
+   while the first reader is queued behind it (3 tasks, 3 steps) *)
+Theorem C20_refuted_second_reader :
+  exists progs sched st ev,
+    exec Old (init progs) sched = Some (st, ev) /\ writers_in st = 1 /\ readers_in st = 1.
+Proof. exact old_second_reader. Qed.
+Print Assumptions C20_refuted_second_reader.
+
+(* the algorithm before the fix: cancelling the queued first reader leaves the
+   counter at 1; afterwards readers and writers overlap although nobody waits *)
+Theorem C20_refuted_cancel :
+  exists progs sched st ev,
+    exec Old (init progs) sched = Some (st, ev) /\ writers_in st = 1 /\ readers_in st = 1 /\
+    counter st = 2 /\ waiters (wl st) = [].
+Proof. exact old_cancel_breaks. Qed.
+Print Assumptions C20_refuted_cancel.
+
+(* FileLock: at most one writer per lock file, for every schedule in which the
+   lock file does not reach the expiration age while a writer is inside
+   ([fexec true]: an [FExpire] label in such a state is not executable),
+   whatever lock file (none, fresh, stale) the run starts with, any number of
+   retry delays [n] *)
+Theorem filelock_excl : forall n progs f0 sched st ev,
+  fexec true n (finit progs f0) sched = Some (st, ev) -> fwriters_in st <= 1.
+Proof. exact filelock_excl_lemma. Qed.
+Print Assumptions filelock_excl.
+
+(* FileLock: the lock file exists exactly while a writer is inside -- every
+   way out of the critical section (normal exit, exception, cancellation) has
+   removed it *)
+Theorem filelock_released : forall n progs sched st ev,
+  fexec true n (finit progs Absent) sched = Some (st, ev) ->
+  (fwriters_in st = 0 -> file st = Absent) /\ (fwriters_in st = 1 -> file st = Fresh).
+Proof. exact filelock_released_lemma. Qed.
+Print Assumptions filelock_released.
+
+(* the expiry assumption is necessary: a holder that outlives the expiration
+   loses the lock to a newcomer *)
+Theorem filelock_refuted_overstay :
+  exists progs sched st ev,
+    fexec false 1 (finit progs Absent) sched = Some (st, ev) /\ fwriters_in st = 2.
+Proof. exact filelock_overstay. Qed.
+Print Assumptions filelock_refuted_overstay.
